@@ -175,9 +175,23 @@ def units(tier):
     return out
 
 
+def _hostile_work(names):
+    """(in child interpreters imitating unusual hosts: -bb, -X dev, DEBUG logging, few descriptors, -O/-OO, ...) a slice of the
+    enumeration: identifier singles for the given names, the sharing patterns, the size family's small members, white space"""
+    us = [("case", tag, a, e) for tag, a, e in ei.singles(list(names))] + [("case", tag, a, e) for tag, a, e in list(ei.sharing())[:6] + list(ei.nested_tuples())[:3]]
+    us += [("case", tag, a, e) for tag, a, e in ei.big() if tag.startswith(("lazy", "chain:3", "nest:3", "groups:5", "boolmix:or-under-and:10"))]
+    us += [("ws", "\r\n"), ("after", POISON[0])]
+    out = _work(us)
+    out["outcomes"] = [str(o) for o in out["outcomes"]]
+    return out
+
+
 def run(res, tier):
     for w in pmap(_work, permuted(units(tier), "c07"), chunk=6):
         res.merge_worker(w)
+    from ..common import hostile_runs
+
+    hostile_runs(res, "mc.checks.c07", "_hostile_work", ["order_id", "_u", "index"])
     res.set("states", res.cov.get("programs", 0))
     res.set("transitions", res.cov.get("evaluations", 0) + res.cov.get("programs", 0))
     res.set("traces_validated_against_impl", res.cov.get("evaluations", 0) + res.cov.get("programs", 0))
@@ -186,6 +200,10 @@ def run(res, tier):
 
 
 def replay(data):
+    if data.get("host_environment"):
+        from ..common import replay_in_host
+
+        return replay_in_host(data, "mc.checks.c07", "_hostile_work", ["order_id", "_u", "index"])
     if "before" in data:
         impl.build(data["before"])
         bad, msg = progcheck.replay_eval(data)
